@@ -711,6 +711,122 @@ def rule_t5(F):
     return r
 
 
+def _shape(e, params, depth=0):
+    """Structure of an expression with closure parameters replaced by their position in the parameter pattern and every other
+    local by its type (so that names do not matter)."""
+    e = hir.strip(e)
+    k = e.get("k")
+    if k == "path":
+        l = hir.res_local(e)
+        if l is not None:
+            return ("param", params[l]) if l in params else ("captured", e.get("ty"))
+        return ("def", hir.last(hir.res_def(e) or ""))
+    if k == "bin":
+        return ("bin", e.get("op"), _shape(e["a"], params), _shape(e["b"], params))
+    if k == "un":
+        return ("un", e.get("op"), _shape(e["a"], params))
+    if k == "mcall":
+        return ("mcall", e["m"], _shape(e["recv"], params), tuple(_shape(a, params) for a in e["args"]))
+    if k == "call":
+        return ("call", _shape(e["f"], params), tuple(_shape(a, params) for a in e["args"]))
+    if k == "field":
+        return ("field", e.get("n"), _shape(e["e"], params))
+    if k == "ref":
+        return _shape(e["e"], params)
+    if k == "lit":
+        return ("lit", e.get("v"))
+    return (k,)
+
+
+def _mentions_captured(sh):
+    if isinstance(sh, tuple):
+        if sh and sh[0] == "captured":
+            return True
+        return any(_mentions_captured(x) for x in sh)
+    return False
+
+
+def rule_t7(F):
+    """Arm selection of `match`: a variant that no arm names takes the default chain, which must consist of exactly the arms that
+    every named variant's chain also tries besides its own - the wildcard arms, guarded or not, in order."""
+    r = RuleResult("C01.T7", "match lowering: the default chain selects arms with the same predicate as the wildcard part of every per-variant chain", floor=2)
+    ps = [p for p in F.paths() if p.endswith("::r#match") and "match_expr" in p]
+    if not ps:
+        r.missing("mir::lower::match_expr r#match")
+        return r
+    b = F.body(ps[0])
+    fs = []
+    for c in hir.nodes(b.hir["value"], "mcall"):
+        if c["m"] != "filter" or not c["args"]:
+            continue
+        cl = hir.strip(c["args"][0])
+        if cl.get("k") != "closure":
+            continue
+        params = {}
+        for i, pp in enumerate(cl.get("params") or []):
+            def rec(pat, path):
+                if pat.get("k") == "bind":
+                    params[pat["local"]] = path
+                for j, q in enumerate(pat.get("pats") or []):
+                    rec(q, path + (j,))
+                if pat.get("k") == "pref":
+                    rec(pat["pat"], path)
+            rec(pp, (i,))
+        fs.append((c["line"], _shape(cl["body"], params)))
+    per_variant = [(ln, sh) for ln, sh in fs if _mentions_captured(sh)]
+    default = [(ln, sh) for ln, sh in fs if not _mentions_captured(sh)]
+    r.inst("per-variant arm filter", {"found": len(per_variant)})
+    r.inst("default arm filter", {"found": len(default)})
+    if not per_variant or not default:
+        r.missing("the two arm filters of r#match (per variant: %d, default: %d)" % (len(per_variant), len(default)))
+        return r
+
+    def disjuncts(sh):
+        if sh and sh[0] == "bin" and sh[1] == "||":
+            return disjuncts(sh[2]) + disjuncts(sh[3])
+        return [sh]
+    for ln, sh in per_variant:
+        wild = [d for d in disjuncts(sh) if not _mentions_captured(d)]
+        for dl, dsh in default:
+            if sorted(map(repr, disjuncts(dsh))) != sorted(map(repr, wild)):
+                r.bad(b.path, "default chain predicate", relfile(b.file), dl,
+                      "the arms tried for a variant that no arm names are selected by a different predicate than the wildcard part of the per-variant chains "
+                      "(line %d): e.g. a guarded `_ if c` arm is tried for `Some(..)` but skipped for `None`" % ln)
+    return r
+
+
+def rule_t8(F):
+    """`==` and `!=` are each other's negation for every type: where the equality lowering answers with a constant (values that have
+    no run-time representation, e.g. `()`), the constant must depend on the `negated` flag."""
+    r = RuleResult("C01.T8", "equality lowering: every constant answer of call_eq_of depends on `negated` (so `!=` is the negation of `==` also for value-less types)", floor=1)
+    ps = [p for p in F.paths() if p.endswith("::call_eq_of") and "lir::lower" in p]
+    if not ps:
+        r.missing("lir::lower call_eq_of")
+        return r
+    b = F.body(ps[0])
+    ld = hir.LocalDefs(b.hir)
+    pidx = hir.param_index(b.hir)
+    neg = [i for i, p_ in enumerate(b.hir["params"]) if (p_.get("ty") or "") == "bool"]
+    if len(neg) != 1:
+        r.missing("the `negated: bool` parameter of call_eq_of")
+        return r
+    n = 0
+    for c in hir.nodes(b.hir["value"], "call"):
+        if not (hir.call_def(c) or "").endswith("IrValue::Bool") or not c["args"]:
+            continue
+        n += 1
+        a = hir.strip(c["args"][0])
+        const = a.get("k") == "lit"
+        dep = neg[0] in hir.param_roots(b.hir, ld, a, pidx=pidx)
+        r.inst("constant answer #%d" % n, {"line": c["line"], "literal": a.get("v") if const else None, "depends_on_negated": dep})
+        if const or not dep:
+            r.bad(b.path, "constant answer #%d ignores `negated`" % n, relfile(b.file), c["line"],
+                  "the equality of two values without run-time representation is answered with a constant that does not depend on `negated`: `a != b` and `a == b` give the same answer (e.g. `() != ()` is true)")
+    if n == 0:
+        r.note("call_eq_of has no constant answer")
+    return r
+
+
 def rules(ctx):
     F = ctx["F"]
-    return [rule_t1(F), rule_t2(F), rule_t3(F), rule_t4(F), rule_t5(F), rule_t6(F)]
+    return [rule_t1(F), rule_t2(F), rule_t3(F), rule_t4(F), rule_t5(F), rule_t6(F), rule_t7(F), rule_t8(F)]
